@@ -87,6 +87,7 @@ package txtar
 // never indexes out of range, and every file it returns has a non-empty name; the
 // comment is a prefix of the input whenever the input contains a marker line.
 //@ func Parse
+//@   at call txtar.findFileMarker#1: requires sameSlice(data, old(my_data))
 //@   names (a)
 //@   modifies new F_S_txtar_Archive_*, new H_S_txtar_File, new bytes
 //@   loop 1: invariant a != nil && fresh(a) && (a.Files == nil || fresh(a.Files)) && oldObjectsUnchanged(H_S_txtar_File)
